@@ -131,7 +131,7 @@ func rulesC01(c *Ctx) {
 						if _, isAvail := p.fieldSel(Recv(call), "objects.Node.availableResource"); !isAvail {
 							return false
 						}
-						return len(call.Args) == 1 && p.IsResOf(a.term(call.Args[0]), allocT)
+						return len(call.Args) >= 1 && p.IsResOf(a.term(call.Args[0]), allocT)
 					}, "resources.Resource.FitIn"),
 				)
 				ok := p.Holds(st, gate)
@@ -153,7 +153,7 @@ func rulesC01(c *Ctx) {
 	if fn := c.MustFunc("C01.d", "objects.Node.addAllocationInternal"); fn != nil {
 		sites := p.CallSites(fn.Obj)
 		for _, cs := range sites {
-			if len(cs.Call.Args) != 2 {
+			if len(cs.Call.Args) < 2 {
 				continue
 			}
 			isFalse := p.isConstBool(cs.Call.Args[1], false)
@@ -234,7 +234,7 @@ func rulesC01(c *Ctx) {
 			resv := p.Holds(st, anyReq(
 				p.CallAtom(false, func(call *ast.CallExpr, a Atom) bool { return p.isRecvExpr(fn, Recv(call)) }, "objects.Node.IsReserved"),
 				p.CallAtom(true, func(call *ast.CallExpr, a Atom) bool {
-					if !p.isRecvExpr(fn, Recv(call)) || len(call.Args) != 1 {
+					if !p.isRecvExpr(fn, Recv(call)) || len(call.Args) < 1 {
 						return false
 					}
 					id, ok := unparen(call.Args[0]).(*ast.Ident)
@@ -247,7 +247,7 @@ func rulesC01(c *Ctx) {
 				if !ok || !p.IsCall(call, "resources.Resource.FitIn") {
 					continue
 				}
-				if _, isAvail := p.fieldSel(Recv(call), "objects.Node.availableResource"); isAvail && len(call.Args) == 1 && p.Same(Term{E: call.Args[0], Env: t.Env, Idx: -1}, resT(st)) {
+				if _, isAvail := p.fieldSel(Recv(call), "objects.Node.availableResource"); isAvail && len(call.Args) >= 1 && p.Same(Term{E: call.Args[0], Env: t.Env, Idx: -1}, resT(st)) {
 					fit = true
 				}
 				owner := p.EnclosingFunc(call.Pos())
@@ -263,7 +263,7 @@ func rulesC01(c *Ctx) {
 		n := 0
 		for _, call := range p.callsIn(fn, "objects.newReplacedAllocationResult") {
 			st := p.StateAt(fn, call)
-			if len(call.Args) != 2 {
+			if len(call.Args) < 2 {
 				continue
 			}
 			// node id argument: <node>.NodeID
@@ -286,7 +286,7 @@ func rulesC01(c *Ctx) {
 			// node provenance: getNodeFn(ph.GetNodeID())
 			prov := false
 			d := p.DefOf(nodeT)
-			if cl, ok := unparen(d.E).(*ast.CallExpr); ok && len(cl.Args) == 1 {
+			if cl, ok := unparen(d.E).(*ast.CallExpr); ok && len(cl.Args) >= 1 {
 				if id, ok := unparen(cl.Fun).(*ast.Ident); ok && p.ObjOf(id) == paramObj(p, fn, 1) {
 					if ac, ok := unparen(cl.Args[0]).(*ast.CallExpr); ok && p.IsCall(ac, "objects.Allocation.GetNodeID") {
 						prov = true
@@ -342,7 +342,7 @@ func rulesC01(c *Ctx) {
 			st := p.StateAt(fn, call)
 			d := p.DefOf(T(call.Args[0], st))
 			ok := false
-			if cl, isCall := unparen(d.E).(*ast.CallExpr); isCall && len(cl.Args) == 1 {
+			if cl, isCall := unparen(d.E).(*ast.CallExpr); isCall && len(cl.Args) >= 1 {
 				if id, isId := unparen(cl.Fun).(*ast.Ident); isId && p.ObjOf(id) == paramObj(p, fn, 1) {
 					ad := p.DefOf(Term{E: cl.Args[0], Env: d.Env, Idx: -1})
 					if ac, isC := unparen(ad.E).(*ast.CallExpr); isC && p.IsCall(ac, "objects.Allocation.GetRequiredNode") && p.Same(Term{E: Recv(ac), Env: ad.Env, Idx: -1}, T(call.Args[1], st)) {
@@ -406,7 +406,7 @@ func checkAvailableCoherence(c *Ctx, rule string, onlyFn string) int {
 			case w.Kind == "mutcall:SubFrom":
 				operand, sign = w.Arg, -1
 			case w.Kind == "assign":
-				if call, ok := unparen(w.Arg).(*ast.CallExpr); ok && len(call.Args) == 2 {
+				if call, ok := unparen(w.Arg).(*ast.CallExpr); ok && len(call.Args) >= 2 {
 					if base, isF := p.fieldSel(call.Args[0], "objects.Node."+fld); isF && base != nil {
 						if p.IsCall(call, "resources.Add") {
 							operand, sign = call.Args[1], +1
@@ -430,7 +430,7 @@ func checkAvailableCoherence(c *Ctx, rule string, onlyFn string) int {
 					if sign < 0 {
 						want = "resources.Resource.AddTo"
 					}
-					if p.IsCall(call, want) && len(call.Args) == 1 {
+					if p.IsCall(call, want) && len(call.Args) >= 1 {
 						if _, isAvail := p.fieldSel(Recv(call), "objects.Node.availableResource"); isAvail {
 							st2 := p.StateAt(w.Fn, call)
 							if p.Same(T(call.Args[0], st2), T(operand, st)) {
